@@ -6,9 +6,11 @@ import (
 	"net"
 	"os"
 	"regexp"
+	"runtime"
 	"sort"
 	"strings"
 	"sync"
+	"sync/atomic"
 	"testing"
 	"testing/synctest"
 	"time"
@@ -142,7 +144,7 @@ func raceScenario(t *testing.T, variant int) {
 // raceScenarioMailbox: the mailbox-level objects under concurrent use (real time, child process with -race).
 //
 //	100: deadline setters of a ClientConn and a ServerConn from several goroutines while data flows
-//	101: the TCP noise listener closed from two goroutines at once (many listeners: the window is narrow)
+//	101: the TCP noise listener closed from four goroutines at once (1500 listeners: the window is narrow)
 //	102: Server.Accept against Server.Close (as grpc.Server.Serve / Stop), closes at staggered moments
 func raceScenarioMailbox(t *testing.T, variant int) {
 	r := newRng(uint64(variant) + 77)
@@ -196,19 +198,25 @@ func raceScenarioMailbox(t *testing.T, variant int) {
 		close(stop)
 		cleanup()
 	case 101:
-		for i := 0; i < 300; i++ {
+		for i := 0; i < 1500; i++ {
 			l, err := mailbox.NewListener(r.bytes(14), keyECDH(privFromRng(r)), "127.0.0.1:0", nil)
 			if err != nil {
 				fmt.Println("RACE-SCENARIO listen failed:", err)
 				return
 			}
 			var wg sync.WaitGroup
-			start := make(chan struct{})
-			for k := 0; k < 2; k++ {
+			var start atomic.Bool
+			for k := 0; k < 4; k++ {
 				wg.Add(1)
-				go func() { defer wg.Done(); <-start; _ = l.Close() }()
+				go func() {
+					defer wg.Done()
+					for !start.Load() { // spin: the closers leave together
+					}
+					_ = l.Close()
+				}()
 			}
-			close(start)
+			runtime.Gosched()
+			start.Store(true)
 			wg.Wait()
 		}
 	case 102:
